@@ -161,7 +161,7 @@ def load_known():
         if not line.startswith("open:"):
             continue
         body = line[len("open:"):].strip()
-        parts = [p.strip() for p in body.split("::")]
+        parts = [p.strip() for p in body.split(" :: ")]
         head = parts[0].split()
         prop = None
         key = None
